@@ -551,7 +551,7 @@ Qed.
 Definition oex (oS oM : obs) : Prop :=
   (binding (fst oS) = true -> oM = oS) /\ (is_val (fst oS) = false -> is_val (fst oM) = false).
 
-Lemma step_ex : forall n m s o rest s' obS pols', HInv m s ->
+Lemma step_ex : forall n m s o rest s' obS pols', HInv m s -> no_fmak [o] = true ->
   stepL n s o (pols_step n m o ++ rest) = (s', obS, pols') ->
   HInv (fst (stepM n m o)) s' /\ pols' = rest /\
   match obS, snd (stepM n m o) with
@@ -560,9 +560,9 @@ Lemma step_ex : forall n m s o rest s' obS pols', HInv m s ->
   | _, _ => False
   end.
 Proof.
-  intros n m s o rest s' obS pols' H E.
+  intros n m s o rest s' obS pols' H NF E.
   destruct H as (I & R & CE & GE).
-  destruct o as [cid forms|cid|cid]; simpl in *.
+  destruct o as [cid forms|cid|cid|fk]; simpl in *; [| | |discriminate NF].
   - inversion E; subst. simpl. split; [unfold HInv; simpl; split; [auto|split; [auto|split; [congruence|auto]]]|auto].
   - rewrite <- CE, <- GE in E. destruct (nlookup cid (codes m)) as [fs|].
     + pose proof (good_set_out (ms m) []) as [T0 I0].
@@ -595,27 +595,29 @@ Proof.
     + inversion E; subst. simpl. split; [unfold HInv; auto|auto].
 Qed.
 
-Theorem history_exact_from : forall n ops m s rest, HInv m s ->
+Theorem history_exact_from : forall n ops m s rest, HInv m s -> no_fmak ops = true ->
   Forall2 oex (runL n s ops (pols_run n m ops ++ rest)) (runM n m ops).
 Proof.
-  intros n. induction ops as [|o r IH]; simpl; intros m s rest H; [constructor|].
+  intros n. induction ops as [|o r IH]; simpl; intros m s rest H NF; [constructor|].
+  destruct (no_fmak_cons _ _ NF) as [N1 N2].
   rewrite <- app_assoc.
   destruct (stepL n s o (pols_step n m o ++ pols_run n (fst (stepM n m o)) r ++ rest)) as [[s' obS] pols'] eqn:EL.
-  destruct (step_ex n m s o _ s' obS pols' H EL) as (H' & -> & OB).
+  destruct (step_ex n m s o _ s' obS pols' H N1 EL) as (H' & -> & OB).
   destruct (stepM n m o) as [m' obM]. simpl in *.
-  specialize (IH m' s' rest H').
+  specialize (IH m' s' rest H' N2).
   destruct obS as [a|], obM as [b|]; try contradiction; simpl; auto.
 Qed.
 (* every history of {read, Code.Compile, Code.Eval}: under the lookup times M's run uses (each allowed by the
    language) the specification's outcomes are exactly M's - results, conditions (undefined-function included)
    and emitted values *)
-Theorem history_exact : forall n ops,
+Theorem history_exact : forall n ops, no_fmak ops = true ->
   Forall2 oex (runL n sinit ops (pols_run n minit ops)) (runM n minit ops).
 Proof.
-  intros n ops. rewrite <- (app_nil_r (pols_run n minit ops)). apply history_exact_from. apply HInv_init.
+  intros n ops NF. rewrite <- (app_nil_r (pols_run n minit ops)). apply history_exact_from; auto. apply HInv_init.
 Qed.
-Corollary history_exact_exists : forall n ops, exists pols, Forall2 oex (runL n sinit ops pols) (runM n minit ops).
-Proof. intros n ops. exists (pols_run n minit ops). apply history_exact. Qed.
+Corollary history_exact_exists : forall n ops, no_fmak ops = true ->
+  exists pols, Forall2 oex (runL n sinit ops pols) (runM n minit ops).
+Proof. intros n ops NF. exists (pols_run n minit ops). apply history_exact; auto. Qed.
 
 (* with the empty oracle (every lookup before the arguments) runL is runS *)
 Lemma gdef_evalS_ext : forall ev ev', (forall en o e, ev en o e = ev' en o e) ->
@@ -655,7 +657,7 @@ Qed.
 Theorem runL_early : forall n ops s, runL n s ops [] = runS n s ops.
 Proof.
   intros n. induction ops as [|o r IH]; simpl; intros s; auto.
-  destruct o as [cid forms|cid|cid]; simpl.
+  destruct o as [cid forms|cid|cid|fk]; simpl.
   - apply IH.
   - destruct (nlookup cid (scodes s)) as [fs|]; simpl; [|apply IH].
     rewrite compile_defsL_early. destruct (compile_defsS n (sft s) (sgv s) [] fs) as [[[[x o1] ft'] gv'] fs'].
@@ -663,6 +665,7 @@ Proof.
   - destruct (nlookup cid (scodes s)) as [fs|]; simpl; [|apply IH].
     rewrite run_formsL_early. destruct (run_formsS n (sft s) (sgv s) [] fs VNil) as [[[rr o1] ft'] gv'].
     simpl. rewrite IH. reflexivity.
+  - apply IH.
 Qed.
 
 (* ---- the witnesses of the former finding C08-undefined-args-first, now exact -------------------------------
